@@ -351,6 +351,12 @@ def decrypting_consumer_failures(offsets):
 
 
 def extra_checks(rep, tier):
+    from contracts import immutable_grid
+    immutable_grid.grid_check(rep, tier, "C04")
+    aes_check(rep, tier)
+
+
+def aes_check(rep, tier):
     import random
     rng = random.Random(rep.seed * 17 + 4)
     offsets = list(range(0, 600)) + [2 ** k + d for k in range(4, 71) for d in (-1, 0, 1, 15, 16, 17)] + [rng.randrange(2 ** 70) for _ in range(1000 if tier == "quick" else 20000)]
